@@ -51,6 +51,28 @@ CLAIMED = {
         note="Assumed: stop() reaches the Manager once; loseConnection => connectionLost eventually; OneShotObserver contract "
              "(C18). Completion of close() itself is liveness (not decided). Known finding: inbound attempts are not tracked.",
         design="6/C17"),
+    "C13": dict(
+        text="Every SubChannel input is verified from every one of the seven states through the real transition table against one "
+             "shared set of lifecycle clauses (CLOSE exactly when the write side closes; connectionLost exactly when the read side "
+             "closes, once; nothing delivered after it; write-after-close raises; manager told exactly on entering closed; queued "
+             "data delivered in order before the queued close); Inbound.handle_open/data/close, SubchannelDemultiplex "
+             "_got_open/register/_connect (once now or FIFO at listen; unexpected subprotocol refused by CLOSE); the wiring "
+             "obligation that the demultiplexer enforces the set declared in dilate(); id disjointness by parity (with C11).",
+        note="Assumed: collaborators are boundary objects; application callbacks are the last boundary call of their input (proved) "
+             "so re-entry equals a later call, except writeConnectionLost in open_half.local_close; callbacks do not raise. "
+             "inlineCallbacks endpoints connect()/listen() are not under contract here (C17 covers their waiting).",
+        design="6/C13"),
+    "C11": dict(
+        text="choose_role (real body on both sides: for a != b exactly one Leader and one Follower, id parities differ; z3 string "
+             "order), allocate_subchannel_id (+2, parity kept; disjointness step lemma), the Manager connection-slot invariant "
+             "(_connection is not None <=> state in CONNECTED/ABANDONING/STOPPING) required and ensured by every Manager input, "
+             "Connector accept-once/winner-once/stopped-delivers-nothing, DilatedConnectionProtocol (records reach the manager "
+             "only in 'selected', queued in order in 'selecting', KCM from the Leader only on the chosen link), "
+             "Boss.D_received_dilate reorder buffer (loop invariant).",
+        note="NOT decided: 'the two sides re-converge on a new connection without deadlock' is a liveness property of the product "
+             "of two Managers/Connectors with unbounded in-flight queues; no per-function contract expresses it. Assumed: "
+             "collaborators as boundary objects, Noise authenticity makes a decrypted KCM mean the Leader confirmed.",
+        design="6/C11"),
 }
 NOT_BUILT = "check not built yet (framework under construction; see DESIGN.md section 11)"
 
